@@ -137,6 +137,26 @@ def ref_split_stream(data: bytes):
     return frames, data[pos:]
 
 
+def reassemble(writes):
+    """The wire is a byte stream: an implementation may hand one frame to the transport in several writes. Consecutive writes that
+    are not frames by themselves but whose concatenation is a sequence of well-formed frames are merged into those frames;
+    everything else is returned as it was written (and judged as such)."""
+    out, buf = [], b""
+    for w in writes:
+        w = bytes(w)
+        if not buf and ref_check_frame(w) is None:
+            out.append(w)
+            continue
+        buf += w
+        frames, rest = ref_split_stream(buf)
+        if frames and all(ref_check_frame(f) is None for f in frames):
+            out += frames
+            buf = rest
+    if buf:
+        out.append(buf)
+    return out
+
+
 def ref_check_all(frame: bytes, begin=b"FIX.4.4"):
     """Set of failed clause names among {structure, field, order, bodylength, trailer,
     checksum}; empty set = well-formed. Unlike ref_check_frame it does not stop at the
